@@ -186,6 +186,14 @@ def run(res, tier, rng, table_diffs=()):
     for d in directed:
         cases.append(("directed", d))
     cases += root_matrix()
+    # THE SAME CONSTRUCTOR EVALUATED AGAIN after its first value died and a collection ran: an implementation that remembers
+    # "the" empty list / empty text / a small constant object somewhere the collector does not see hands out a released object
+    for lit in ["[]", '""', "[[]]", '[""]', "1.5", '"s"', "[1]", "[[], []]", '"" + ""', "[] == []"]:
+        for k in (1, 2, 3):
+            calls = " ".join("g();" for _ in range(k))
+            cases.append(("again", "functie g() { stel t = %s; 0 }; %s functie h() { 0.5 + 0.5 }; h(); stel a = %s; stel b = [2.5 + 1.0, \"q\" + \"r\"]; [a, lengte(string(a)), b]" % (lit, calls, lit)))
+            cases.append(("again", "%s; 1; functie h() { [7.5] }; %s stel a = %s; stel c = h(); [a, c, %s]" % (lit, " ".join("h();" for _ in range(k)), lit, lit)))
+            cases.append(("again", "functie m() { [%s, %s] }; stel x = m(); %s stel y = m(); functie n() { string(1.5) }; n(); [x, y, lengte(string(y))]" % (lit, lit, " ".join("m();" for _ in range(k)))))
     # HEAP PRESSURE: many objects allocated with no function return in between (hence no collection by the rule "collect at
     # returns"), their number sweeping every value around the usual thresholds (2^10, 2^11, 2^12) — and then structures built from
     # FRESH heap values whose elements are, for a moment, only in the machine's hands (popped operands of a list literal, arguments
